@@ -299,4 +299,7 @@ class LinkedContext(ContextBase):
         self.linked_context[name] = value
 
     def create_child_context(self):
-        return type(self.linked_context)(self)
+        context_type = type(self.linked_context)
+        if not issubclass(context_type, Context):
+            context_type = Context
+        return context_type(self)
